@@ -45,6 +45,10 @@ pub struct ProbeCase {
     /// installations
     #[serde(default)]
     pub early: bool,
+    /// the whole case runs from tear-down code executed while the thread unwinds from a failed
+    /// test body (`std::thread::panicking()` is true throughout)
+    #[serde(default)]
+    pub in_teardown: bool,
 }
 
 #[derive(Serialize, Deserialize, Clone, Debug, Default)]
@@ -94,6 +98,14 @@ const BOOL_SIGS: [&str; 4] = ["fn() -> bool", "fn(u64, u64, u64, u64, u64, u64, 
 const FAKE_SIGS: [&str; 3] = ["unsafe extern \"C\" fn(u64, u64, u64, u64, u64, u64, f64, f64, f64, f64, f64, f64, f64, f64, u64, u64) -> u128", "fn()", "unsafe extern \"C\" fn() -> u64"];
 
 pub fn execute(c: &ProbeCase) -> ProbeObs {
+    if c.in_teardown {
+        crate::worker::while_unwinding(|| execute_inner(c))
+    } else {
+        execute_inner(c)
+    }
+}
+
+fn execute_inner(c: &ProbeCase) -> ProbeObs {
     let mut o = ProbeObs::default();
     ip::plan_reset();
     ip::log_clear();
@@ -253,8 +265,12 @@ pub fn strategy(modes: Vec<ProbeMode>) -> impl Strategy<Value = ProbeCase> {
     ];
     (place, proptest::sample::select(modes), regfile(), any::<u8>(), prop::option::weighted(0.4, (any::<u32>(), 0u16..0x1000, prop::bool::weighted(0.6))), prior, prop::bool::weighted(0.3)).prop_map(|(place, mode, regs, sig, fake_thunk, prior, early)| {
         let early = early && prior.is_empty();
-        ProbeCase { place, mode, regs, sig, fake_thunk, prior, early }
+        ProbeCase { place, mode, regs, sig, fake_thunk, prior, early, in_teardown: false }
     })
+    .prop_flat_map(|c| (Just(c), prop::bool::weighted(0.07)).prop_map(|(mut c, t)| {
+        c.in_teardown = t;
+        c
+    }))
 }
 
 pub fn judge(rec: &mut Recorder, c: &ProbeCase, ex: Exec, _hello: &Value) -> Result<(), String> {
@@ -289,6 +305,9 @@ pub fn judge(rec: &mut Recorder, c: &ProbeCase, ex: Exec, _hello: &Value) -> Res
     if o.status == "discarded" {
         rec.count("discarded", 1);
         return Ok(());
+    }
+    if c.in_teardown {
+        rec.class("case-inside-tear-down-while-unwinding");
     }
     rec.eval(|| json!({"case": c, "target": format!("{:#x}", o.target), "long_form": o.long_form, "entry": o.entry_bytes, "trampoline": o.tramp_bytes}));
     if o.status == "refused" {
